@@ -356,12 +356,14 @@ TypeOK == phase \in {"update", "head", "rows", "done"} /\ r \in 1..(NRows(tab) +
 ProtocolInv ==      \* Format is only ever called on a prepared renderer, for a value that was Update'd
     /\ (phase \in {"rows", "done"}) => \A c \in 1..Len(tab) : rst[c].prepared
     /\ (phase = "update") => lines = <<>>
-RectInv == lines # <<>> => RectOK(lines, widths, opt)
-OffsetsInv == lines # <<>> => OffsetsOK(lines, widths, opt)
-StyleInv == StyleOK(lines, opt) /\ (lines # <<>> => RulesOK(lines, widths))
-HeaderInv == lines # <<>> => (HeaderOK(lines, tab, widths, opt) /\ WidthFloorOK(tab, widths, opt))
-ShowsInv == ShowsOK(lines, tab, opt) /\ JustifyOK(lines, tab)
-DotsInv == DotsOK(lines, tab) /\ DotsShownOK(lines, tab)
+\* (lines only grow: judging the finished rendering judges every prefix)
+Finished == phase = "done"
+RectInv == Finished => RectOK(lines, widths, opt)
+OffsetsInv == Finished => OffsetsOK(lines, widths, opt)
+StyleInv == Finished => (StyleOK(lines, opt) /\ RulesOK(lines, widths))
+HeaderInv == Finished => (HeaderOK(lines, tab, widths, opt) /\ WidthFloorOK(tab, widths, opt))
+ShowsInv == Finished => (ShowsOK(lines, tab, opt) /\ JustifyOK(lines, tab))
+DotsInv == Finished => (DotsOK(lines, tab) /\ DotsShownOK(lines, tab))
 \* expansion only when requested, every row present, spacing rows exactly when asked, frame lines when boxed
 SkeletonInv ==
     /\ IsPrefix(Skeleton(lines), WantSkeleton(tab, opt))
